@@ -187,6 +187,31 @@ _RE_REJ = re.compile(r'<<"TRACE_REJECTED_AT", (\d+)>>')
 _RE_BAD = re.compile(r'<<\s*"BAD",\s*(\d+),\s*"([^"]*)"\s*>>', re.S)
 
 
+def apalache_inductive(ctx, spec, cinit, inv="IndInv", init="Init", indinit="IndInit", timeout=900):
+    """Inductive-invariant check with Apalache: base case (init => inv, length 0) and step
+    (indinit /\\ Next => inv', length 1).  Returns dict(status=proved|timeout|unavailable, ...).
+    A counterexample on the committed spec is a defect of the specification work (ToolError), never a
+    verdict about the code: the code is bound to the spec by the refinement and conformance runs."""
+    if not shutil.which("apalache-mc"):
+        return {"status": "unavailable"}
+    res = {"spec": spec, "cinit": cinit, "inv": inv}
+    t = time.time()
+    for name, args in (("base", ["--init=" + init, "--length=0"]), ("step", ["--init=" + indinit, "--length=1"])):
+        od = ctx.path("apalache_%s_%s" % (cinit, name))
+        cmd = ["apalache-mc", "check", "--cinit=" + cinit, "--inv=" + inv, "--out-dir=" + od, *args, os.path.join(SPEC, spec)]
+        try:
+            rc, out = run(cmd, timeout=timeout, cwd=ctx.work)
+        except ToolError:
+            res["status"] = "timeout"
+            res["wall_s"] = round(time.time() - t, 1)
+            return res
+        if "The outcome is: NoError" not in out:
+            raise ToolError("Apalache did not discharge the %s case of %s for %s/%s:\n%s" % (name, inv, spec, cinit, out[-3000:]))
+    res["status"] = "proved"
+    res["wall_s"] = round(time.time() - t, 1)
+    return res
+
+
 class Rej(tuple):
     """(segment_lines, index_in_segment) plus .reason (monitor rule that failed, if reported)."""
     def __new__(cls, seg, idx, reason=""):
